@@ -156,6 +156,100 @@ theorem C11_collision_panics_counterexample :
       (.struct [.num 1, .struct [.num 2]]) = none := by
   decide +kernel
 
+
+/-! ### optional nested structures contribute nothing to the key (follow-up 3) -/
+mutual
+theorem keyEqv_refl : (ms : KMs) → (a : List Val) → KeyEqv ms a a
+  | .nil, _ => by simp [KeyEqv]
+  | .cons _ _ _ _ _ _, [] => by simp [KeyEqv]
+  | .cons id opt mu key t rest, f :: r => by
+    simp only [KeyEqv]
+    refine ⟨?_, keyEqv_refl rest r⟩
+    cases key with
+    | true => simp
+    | false =>
+      cases opt with
+      | true => simp
+      | false => simpa using keyEqvTy_refl t f
+theorem keyEqvTy_refl : (t : KTy) → (a : Val) → KeyEqvTy t a a
+  | .struct _ ms, .struct a => by simp only [KeyEqvTy]; exact keyEqv_refl ms a
+  | .struct _ _, .num _ | .struct _ _, .str _ | .struct _ _, .list _ | .struct _ _, .absent => by simp [KeyEqvTy]
+  | .prim _, _ | .str, _ | .wstr, _ | .union _ _, _ | .enum _ _ _, _ | .seq _, _ | .arr _ _, _ => by simp [KeyEqvTy]
+end
+
+/-- the member at index `i` is optional and is not itself a key member (its type may be a structure with key members) -/
+def KMs.optNonKeyAt : KMs → Nat → Bool
+  | .nil, _ => false
+  | .cons _ opt _ key _ _, 0 => opt && !key
+  | .cons _ _ _ _ _ r, i + 1 => r.optNonKeyAt i
+
+/-- giving the optional member at index `i` any other value (or none: `w = .absent`) keeps the values key-equivalent -/
+theorem keyEqv_set : (ms : KMs) → (fs : List Val) → (i : Nat) → (w : Val) → ms.optNonKeyAt i = true →
+    KeyEqv ms (fs.set i w) fs
+  | .nil, _, _, _, h => by simp [KMs.optNonKeyAt] at h
+  | .cons _ _ _ _ _ _, [], _, _, _ => by simp [KeyEqv]
+  | .cons id opt mu key t rest, f :: r, 0, w, h => by
+    simp only [KMs.optNonKeyAt, Bool.and_eq_true, Bool.not_eq_true'] at h
+    simp only [List.set_cons_zero, KeyEqv, h.1, h.2, Bool.false_eq_true, if_false, if_true, true_and]
+    exact keyEqv_refl rest r
+  | .cons id opt mu key t rest, f :: r, i + 1, w, h => by
+    simp only [KMs.optNonKeyAt] at h
+    simp only [List.set_cons_succ, KeyEqv]
+    refine ⟨?_, keyEqv_set rest r i w h⟩
+    cases key with
+    | true => simp
+    | false =>
+      cases opt with
+      | true => simp
+      | false => simpa using keyEqvTy_refl t f
+
+/-- the result of the real function (errors and panics included) depends on the key projection only -/
+theorem handleOutcome_congr (cfg : Cfg) (t : KTy) (v1 v2 : Val) (h : keyProj t v1 = keyProj t v2) :
+    handleOutcome cfg t v1 = handleOutcome cfg t v2 := by
+  simp only [handleOutcome, h, C11_same_key_same_handle cfg t v1 v2 h]
+
+/-- **C11, an optional member is never part of the instance identity**: for EVERY keyed structure type, every value
+    and every optional non-key member (in particular an optional member of STRUCTURE type whose structure has key
+    members of its own): replacing its value by any other value `w`, or removing it (`w = .absent`), changes neither the
+    key projection, nor the handle, nor the outcome of `get_instance_handle_from_dynamic_data` (so a sample in which
+    the optional member is absent gets a handle exactly when the sample with the member present does). -/
+theorem C11_optional_member_irrelevant (cfg : Cfg) (x : Ext) (ms : KMs) (fs : List Val) (i : Nat) (w : Val)
+    (h : ms.optNonKeyAt i = true) :
+    keyProj (.struct x ms) (.struct (fs.set i w)) = keyProj (.struct x ms) (.struct fs) ∧
+    handle cfg (.struct x ms) (.struct (fs.set i w)) = handle cfg (.struct x ms) (.struct fs) ∧
+    handleOutcome cfg (.struct x ms) (.struct (fs.set i w)) = handleOutcome cfg (.struct x ms) (.struct fs) := by
+  have hp : keyProj (.struct x ms) (.struct (fs.set i w)) = keyProj (.struct x ms) (.struct fs) := by
+    simp only [keyProj]; exact keyEqv_flatV ms _ _ (keyEqv_set ms fs i w h)
+  exact ⟨hp, C11_same_key_same_handle cfg _ _ _ hp, handleOutcome_congr cfg _ _ _ hp⟩
+
+/-- the same one level down: the optional member sits in a non-key, non-optional nested structure (member `j`) -/
+theorem C11_nested_optional_member_irrelevant (cfg : Cfg) (x : Ext) (ms : KMs) (a b : List Val)
+    (h : KeyEqv ms a b) :
+    handleOutcome cfg (.struct x ms) (.struct a) = handleOutcome cfg (.struct x ms) (.struct b) :=
+  handleOutcome_congr cfg _ _ _ (by simp only [keyProj]; exact keyEqv_flatV ms a b h)
+
+/-- type level: the key-holder type does not contain the key members of an optional nested structure -/
+theorem C11_optional_struct_not_in_key_holder_type (id : Nat) (mu : Bool) (t : KTy) (rest : KMs) :
+    flatT (.cons id true mu false t rest) = flatT rest := by
+  simp [flatT]
+
+/-- the exemplar of the seeded change C12_b, kernel-checked: `T { @key a: u8; @optional In n; b: u32 }` with
+    `In { @key k: u8; @key l: u16 }`: the handle of (5, {1,2}, 7), of (5, {3,4}, 7) and of (5, -, 7) is `05 00…`;
+    the optional member's keys 1, 2 are not in it; replay `kh SF{0k:u8,5o:SF{6k:u8,7k:u16},2:u32} {5,{1,2},7}`. -/
+def tyOptKey : KTy := .struct .final (.cons 0 false false true (.prim .u8)
+  (.cons 5 true false false (.struct .final (.cons 6 false false true (.prim .u8) (.cons 7 false false true (.prim .u16) .nil)))
+  (.cons 2 false false false (.prim .u32) .nil)))
+theorem C11_optional_nested_struct_example :
+    (handleOutcome Cfg.fixed tyOptKey (.struct [.num 5, .struct [.num 1, .num 2], .num 7])).map Except.toOption =
+      some (some (5 :: List.replicate 15 0)) ∧
+    (handleOutcome Cfg.fixed tyOptKey (.struct [.num 5, .struct [.num 3, .num 4], .num 7])).map Except.toOption =
+      some (some (5 :: List.replicate 15 0)) ∧
+    (handleOutcome Cfg.fixed tyOptKey (.struct [.num 5, .absent, .num 7])).map Except.toOption =
+      some (some (5 :: List.replicate 15 0)) ∧
+    wfKey Cfg.fixed tyOptKey (.struct [.num 5, .absent, .num 7]) = true ∧
+    KMs.optNonKeyAt (.cons 0 false false true (.prim .u8) (.cons 5 true false false (.prim .u8) .nil)) 1 = true := by
+  decide +kernel
+
 def tyKeyDemo : KTy := .struct .appendable
   (.cons 0 false false false (.struct .final (.cons 10 false false true (.prim .u8) (.cons 11 false false false .str .nil)))
   (.cons 1 false false true .str (.cons 2 false false false (.prim .u64) (.cons 3 false false true (.arr (.prim .i16) 2) .nil))))
